@@ -749,14 +749,29 @@ impl GlobalInferenceCtx<'_> {
                 tail_expr: Some(tail_expr),
                 ..
             } => self.get_mutability(*tail_expr, assignment, deref),
-            Expr::Local(local_def) if deref => {
-                let local_def = &self.bodies[*local_def];
+            Expr::Local(local_def_idx) if deref => {
+                let local_def = &self.bodies[*local_def_idx];
 
-                if let Some(value) = local_def.value {
+                let by_value = if let Some(value) = local_def.value {
                     self.get_mutability(value, false, deref)
                 } else {
                     // todo: does this make sense?
                     ExprMutability::Mutable
+                };
+
+                // the *type* of the local has the last word: nothing can be mutated through an
+                // immutable pointer, whatever it was initialized with (`p : ^i32 = ^mut x;`)
+                let local_ty = self.tys[self.loc][*local_def_idx];
+                let local_ty = match local_ty.absolute_ty() {
+                    Ty::Optional { sub_ty } => *sub_ty,
+                    _ => local_ty,
+                };
+
+                match (by_value, local_ty.as_pointer()) {
+                    (ExprMutability::Mutable, Some((false, _))) => {
+                        ExprMutability::ImmutableRef(local_def.range)
+                    }
+                    (by_value, _) => by_value,
                 }
             }
             Expr::Local(local_def) if !deref => {
@@ -839,7 +854,22 @@ impl GlobalInferenceCtx<'_> {
                     ),
                 }
             }
-            Expr::Call { .. } if deref => ExprMutability::Mutable,
+            // a call result that is dereferenced: only a `^mut` result can be mutated through
+            Expr::Call { .. } if deref => {
+                let ty = self.tys[self.loc][expr];
+
+                let ty = match ty.absolute_ty() {
+                    Ty::Optional { sub_ty } => *sub_ty,
+                    _ => ty,
+                };
+
+                match ty.as_pointer() {
+                    Some((false, _)) => {
+                        ExprMutability::ImmutableRef(self.bodies.range_for_expr(expr))
+                    }
+                    _ => ExprMutability::Mutable,
+                }
+            }
             Expr::Cast { .. } if deref => {
                 let ty = self.tys[self.loc][expr];
 
